@@ -265,13 +265,18 @@ func c12Printed(out, tag string) ([]string, error) {
 const c12Invs = "HonestAccepted SessionBound ReplaceBound ShiftBound ModShiftBound CrossUseBound"
 
 func c12RunTLC(big bool) c12TLC {
+	// TLC evaluates the constant definitions (the derivation of the catalogue) once per worker: one worker is fastest for the small sets
+	workers := 1
+	if big {
+		workers = 4
+	}
 	var out c12TLC
 	b := "FALSE"
 	if big {
 		b = "TRUE"
 	}
 	cfg := "SPECIFICATION Spec\nCONSTANT Big = " + b + "\nINVARIANTS " + c12Invs + "\nCHECK_DEADLOCK FALSE\n"
-	out.Res = tlc.Run(tlc.Options{Module: "ProofBinding", Cfg: cfg, Workers: 4, Heap: "3g", Timeout: 40 * time.Minute})
+	out.Res = tlc.Run(tlc.Options{Module: "ProofBinding", Cfg: cfg, Workers: workers, Heap: "3g", Timeout: 40 * time.Minute})
 	if out.Res.Err != nil {
 		out.Err = out.Res.Err
 		return out
